@@ -114,3 +114,14 @@ VARIANTS += [
          edits=[dict(file=ST20, old="        best_trial = self._storage.get_best_trial(self._study_id)\n", new="        best_trial = copy.deepcopy(self._storage.get_best_trial(self._study_id))\n"),
                 dict(file=ST20, old="        return copy.deepcopy(best_trial)\n", new="        return best_trial\n")]),
 ]
+
+VARIANTS += [
+    dict(id="c20-deepcopy-with-seeded-memo", prop="C20", file=IM, expect="R20.2",
+         old="            if deepcopy:\n                trials = copy.deepcopy(trials)\n",
+         new="            if deepcopy:\n                trials = copy.deepcopy(trials, {id(t.distributions): t.distributions for t in trials})\n"),
+    dict(id="c20-neutral-deepcopy-empty-memo", prop="C20", file=IM, expect=None,
+         old="            if deepcopy:\n                trials = copy.deepcopy(trials)\n",
+         new="            if deepcopy:\n                trials = copy.deepcopy(trials, {})\n"),
+    dict(id="c20-rdb-template-shallow-copy", prop="C20", file="optuna/storages/_rdb/storage.py", expect="R20.1",
+         old="                frozen = copy.deepcopy(template_trial)\n", new="                frozen = copy.copy(template_trial)\n"),
+]
